@@ -557,6 +557,37 @@ FUNCS = [
 ]
 
 
+def check_append_overloads(src):
+    """every `PoolList::append` overload must be `T& append(A a, B b, …) {return linkFreeItem(new (allocateFreeItem()) T(a, b, …));}`
+    with the parameters handed to T's constructor in their order (`T` without parentheses for no parameter): the linking of all
+    arities is then the translated `linkFreeItem`.  Returns the list of arities found."""
+    arities = []
+    for m in re.finditer(r"T\s*&\s*append\s*\(([^)]*)\)\s*\{([^}]*)\}", src):
+        params = [p.strip() for p in m.group(1).split(",") if p.strip()]
+        names = []
+        for prm in params:
+            mm = re.fullmatch(r"([A-Z])\s+([a-z])", prm)
+            if not mm:
+                raise Refuse(f"PoolList::append: parameter `{prm}` is not of the understood form `A a`")
+            names.append(mm.group(2))
+        body = re.sub(r"\s+", "", m.group(2))
+        want = "returnlinkFreeItem(new(allocateFreeItem())T" + ("(" + ",".join(names) + ")" if names else "") + ");"
+        if body != want:
+            raise Refuse(f"PoolList::append with {len(names)} parameter(s): body `{body}` is not `{want}`")
+        arities.append(len(names))
+    if not arities:
+        raise Refuse("PoolList::append: no overload found")
+    # allocateFreeItem: take the head of the free list (allocating a block when it is empty) and return the element slot
+    # behind its header, leaving `freeItem` pointing at it for linkFreeItem
+    body = re.sub(r"\s+", "", extract(src, "PoolList::allocateFreeItem", r"T\s*\*\s*allocateFreeItem\s*\(\s*\)"))
+    if not re.fullmatch(r"Item\*item=freeItem;if\(!item\)\{.*newchar\[.*freeItem=item;\}return\(T\*\)\(item\+1\);", body):
+        raise Refuse("PoolList::allocateFreeItem is not `Item* item = freeItem; if(!item) {<block allocation> freeItem = item;} "
+                     "return (T*)(item + 1);`")
+    if sorted(arities) != list(range(len(arities))):
+        raise Refuse(f"PoolList::append: arities {sorted(arities)} are not 0..n")
+    return sorted(arities)
+
+
 def generate(repo, out_path):
     """writes out_path (only when the content changes); returns a one-line summary; raises Refuse"""
     repo = Path(repo)
@@ -585,6 +616,11 @@ def generate(repo, out_path):
             cur = ns
         parts += [f"def {name} {sig} :=" ] + lines + [""]
         summary.append(f"{fn}:{len(stmts)} stmts")
+    ar = check_append_overloads(srcs["include/nstd/PoolList.hpp"])
+    parts += ["/-- the arities of `PoolList::append`; every overload is `linkFreeItem(new (allocateFreeItem()) T(a, b, …))` with the",
+              "    parameters in their order (checked by the translator) -/",
+              f"def appendArities : List Nat := {ar}", ""]
+    summary.append(f"PoolList::append arities {ar[0]}..{ar[-1]} of the shape linkFreeItem(new (allocateFreeItem()) T(params in order))")
     parts += [f"end {cur}", "", "end Nstd.Generated.SeqLink", ""]
     text = "\n".join(parts)
     out_path = Path(out_path)
